@@ -336,6 +336,13 @@ class _Gen:
             elif k < 84:
                 nf += 1
                 self.field_slot(m, FIELD_WORDS[(fw + nf) % len(FIELD_WORDS)])
+            elif k < 87 and self.files and [i for i in self.files[-1].items if isinstance(i, Import)]:
+                # a FIELD named like an import name of this file: a leaf, not a scope, so `name.T` written after it in this
+                # message (or in messages nested in it) still means the imported file's T
+                imps = [i.name for i in self.files[-1].items if isinstance(i, Import)]
+                free = [x for x in imps if x not in self.declared(m)]
+                if free:
+                    self.field_slot(m, free[d(st.integers(0, len(free) - 1))], base=True)
             elif k < 90:
                 nf += 1
                 self.field_slot(m, FIELD_WORDS[(fw + nf) % len(FIELD_WORDS)], base=True)
@@ -688,7 +695,10 @@ def python_unsafe(case: Case) -> Optional[str]:
             if isinstance(d, (Enum, Message, Alias)):
                 type_names.add(d.name)
     for f in unit.files:
+        import_names = {i.name for i in f.imports()}
         for d, p in _defs_with_paths(f):
+            if isinstance(d, Field) and d.name in import_names:
+                return "N13: field named like an import name (recorded finding of C10: the Python class body binds the name)"
             if isinstance(d, Field) and (d.name in type_names or d.name in HOT_CONSTS):
                 return "field named like a type or constant (generated-name collisions are C10's subject)"
             if isinstance(d, (Enum, Message)) and d.name in HOT_CONSTS:
